@@ -623,7 +623,8 @@ pub fn run_property(cx: &RunCtx, known: &Known) -> Verdict {
                 let mut b = j.clone();
                 // (counters and grow-only types are cheap: 11 actors there)
                 b.cfg.nrep = if cx.prop == "C11" { 11 } else { 8 };
-                b.cfg.nsteps = 40;
+                // (40 steps spread 11 actors' increments too thinly for one replica to learn of 9 of them)
+                b.cfg.nsteps = if cx.prop == "C11" { 110 } else { 40 };
                 b.n = (j.n / 16).max(100);
                 if let Some(sw) = &mut b.sweep {
                     sw.next = sw.next.min(4);
